@@ -24,7 +24,82 @@
 #include <stdlib.h>
 #include <string.h>
 
+#include "../model/rankapi.h"
+
 extern struct vm_env vm_core_env;
+
+/* per-rank copies of the core: everything the harness touches goes through the calling thread's rank */
+RK_DECL(RootsimInit);
+RK_DECL(RootsimRun);
+RK_DECL(RootsimStop);
+RK_DECL(gvt_phase_run);
+RK_DECL(process_msg);
+RK_DECL(mpi_remote_msg_handle);
+RK_DECL(gvt_msg_drain);
+RK_DECL(msg_queue_insert);
+RK_DECL(msg_queue_extract);
+RK_DECL(msg_allocator_alloc);
+RK_DECL(msg_allocator_free);
+RK_DECL(msg_allocator_free_at_gvt);
+RK_DECL(msg_allocator_on_gvt);
+RK_DECL(fossil_lp_collect);
+RK_DECL(process_lp_fini);
+RK_DECL(process_lp_init);
+RK_DECL(termination_on_msg_process);
+RK_DECL(termination_on_lp_rollback);
+RK_DECL(model_allocator_checkpoint_take);
+RK_DECL(model_allocator_checkpoint_restore);
+RK_DECL(stats_take);
+RK_DECL(stats_on_gvt);
+RK_DECL(mpi_remote_msg_send);
+RK_DECL(mpi_remote_anti_msg_send);
+RK_DECL(global_config);
+RK_DECL(lps);
+RK_DECL(lid_node_first);
+RK_DECL(n_lps_node);
+RK_DECL(n_nodes);
+RK_DECL(nid);
+RK_DECL_TLS(rid);
+RK_DECL_TLS(current_lp);
+#ifdef NRANKS
+#define RootsimInit RKF(RootsimInit)
+#define RootsimRun RKF(RootsimRun)
+#define RootsimStop RKF(RootsimStop)
+#define gvt_phase_run RKF(gvt_phase_run)
+#define process_msg RKF(process_msg)
+#define mpi_remote_msg_handle RKF(mpi_remote_msg_handle)
+#define gvt_msg_drain RKF(gvt_msg_drain)
+#define msg_queue_insert RKF(msg_queue_insert)
+#define msg_queue_extract RKF(msg_queue_extract)
+#define msg_allocator_alloc RKF(msg_allocator_alloc)
+#define msg_allocator_free RKF(msg_allocator_free)
+#define msg_allocator_free_at_gvt RKF(msg_allocator_free_at_gvt)
+#define msg_allocator_on_gvt RKF(msg_allocator_on_gvt)
+#define fossil_lp_collect RKF(fossil_lp_collect)
+#define process_lp_fini RKF(process_lp_fini)
+#define process_lp_init RKF(process_lp_init)
+#define termination_on_msg_process RKF(termination_on_msg_process)
+#define termination_on_lp_rollback RKF(termination_on_lp_rollback)
+#define model_allocator_checkpoint_take RKF(model_allocator_checkpoint_take)
+#define model_allocator_checkpoint_restore RKF(model_allocator_checkpoint_restore)
+#define stats_take RKF(stats_take)
+#define stats_on_gvt RKF(stats_on_gvt)
+#define mpi_remote_msg_send RKF(mpi_remote_msg_send)
+#define mpi_remote_anti_msg_send RKF(mpi_remote_anti_msg_send)
+#define global_config RKV(global_config)
+#define LPS RKV(lps)
+#define lid_node_first RKV(lid_node_first)
+#define n_lps_node RKV(n_lps_node)
+#define n_nodes RKV(n_nodes)
+#define nid RKV(nid)
+#define rid RKV(rid)
+#define current_lp RKV(current_lp)
+#else
+#define NRANKS 1
+#define LPS lps
+#endif
+/* global thread index of the calling worker: rank * 8 + rid */
+#define TH() ((int)(rs_rank() * 8 + (int)rid))
 
 /* ------------------------------------------------------------------ parameters */
 static const char *P_model;
@@ -39,11 +114,11 @@ static int P_negative = 0; /* the model is non-terminating by design: returning 
 enum {
 	C_ROLLBACK, C_STRAGGLER, C_ANTI_LOCAL, C_ANTI_BEFORE_PROC, C_ANTI_AFTER_PROC, C_SILENT, C_FOSSIL_RELEASE, C_GVT_ROUNDS,
 	C_COMMITTED, C_CKPT, C_EVENTS, C_BY_PRED, C_BY_TIME, C_BY_STOP, C_ORPHAN, C_CANCEL_IN_QUEUE, C_REQUEUE, C_E_CHECKED,
-	C_T_CHECKED, C_EARLY_EXIT_THREAD, C_STATS_RECORDS, C_NEG_QUIESCENT
+	C_T_CHECKED, C_EARLY_EXIT_THREAD, C_STATS_RECORDS, C_NEG_QUIESCENT, C_REMOTE_SENT, C_REMOTE_ANTI, C_EARLY_ANTI, C_REMOTE_ANTI_RECV
 };
 
 /* ------------------------------------------------------------------ monitor state */
-#define MAXTH 8
+#define MAXTH 24
 #define MAXMSG 8192
 #define MAXGV 4096
 struct mrec {
@@ -78,7 +153,6 @@ static uint64_t st_rec[MAXTH][MAXREC][5]; /* processed, rollbacks, rolled back m
 static uint64_t st_rec_anti[MAXTH][MAXREC];
 static unsigned st_nrec[MAXTH];
 
-extern __thread rid_t rid;
 
 static struct mrec *mr_find(const struct lp_msg *p, int create)
 {
@@ -111,19 +185,19 @@ static void h_stop(void)
 static void h_on_fini(uint64_t me, const struct vm_state *st)
 {
 	fini_seen[me]++;
-	current_lp = &lps[me];
+	current_lp = &LPS[me];
 	fini_digest[me] = vm_full_digest(st);
 }
 
 static void h_dispatch(lp_id_t me, simtime_t now, unsigned type, const void *pl, unsigned size, void *st)
 {
-	int th = (int)rid;
+	int th = TH();
 	vm_process_event(me, now, type, pl, size, st);
 	if(type == LP_INIT || type == LP_FINI)
 		return;
 	struct lp_msg *msg = (struct lp_msg *)((char *)(uintptr_t)pl - offsetof(struct lp_msg, pl));
 	struct mrec *r = mr_find(msg, 1);
-	uint64_t d = vm_full_digest(lps[me].state_pointer);
+	uint64_t d = vm_full_digest(LPS[me].state_pointer);
 	if(in_coast[th]) {
 		rs_count(C_SILENT, 1);
 		/* silent re-execution must rebuild exactly the state the forward execution produced */
@@ -139,7 +213,6 @@ static void h_dispatch(lp_id_t me, simtime_t now, unsigned type, const void *pl,
 }
 
 /* ------------------------------------------------------------------ wrappers around cross-TU calls of the core */
-extern simtime_t gvt_phase_run(void);
 static void tell_gvt(int th, double g)
 {
 	if(gvt_n[th] >= MAXGV)
@@ -169,7 +242,7 @@ static void tell_gvt(int th, double g)
 	if(g == SIMTIME_MAX && P_negative) {
 		/* quiescence cut-off for models that must never return: nothing is queued or in flight any more */
 		int all = 1;
-		for(unsigned o = 0; o < P_threads; ++o)
+		for(unsigned o = 0; o < P_threads; ++o) /* single-rank only */
 			all &= gvt_n[o] >= 2 && gvt_seq[o][gvt_n[o] - 1] == SIMTIME_MAX && gvt_seq[o][gvt_n[o] - 2] == SIMTIME_MAX;
 		if(all) {
 			rs_count(C_NEG_QUIESCENT, 1);
@@ -183,14 +256,13 @@ simtime_t vw_gvt_phase_run(void)
 	rs_point("gvt_phase_run");
 	simtime_t g = gvt_phase_run();
 	if(g != 0.0)
-		tell_gvt((int)rid, g);
+		tell_gvt(TH(), g);
 	return g;
 }
 
-extern void process_msg(void);
 void vw_process_msg(void)
 {
-	int th = (int)rid;
+	int th = TH();
 	if(qcount[th] > 0 || last_effective[th]) {
 		rs_point("process_msg");
 		last_effective[th] = qcount[th] > 0;
@@ -198,24 +270,22 @@ void vw_process_msg(void)
 	process_msg();
 }
 
-extern void mpi_remote_msg_handle(void);
 void vw_mpi_remote_msg_handle(void)
 {
 	rs_point("mpi_remote_msg_handle");
 	mpi_remote_msg_handle();
 }
 
-extern void gvt_msg_drain(void);
 void vw_gvt_msg_drain(void)
 {
-	left_loop[rid] = 1;
+	left_loop[TH()] = 1;
 	rs_point("gvt_msg_drain");
 	gvt_msg_drain();
 }
 
 void vw_msg_queue_insert(struct lp_msg *msg)
 {
-	int th = (int)rid;
+	int th = TH();
 	struct mrec *r = mr_find(msg, 1);
 	if(want("M")) {
 		if(!r->alloc)
@@ -227,7 +297,7 @@ void vw_msg_queue_insert(struct lp_msg *msg)
 	}
 	if(in_coast[th] && want("R"))
 		rs_fail("C05 event emitted during silent re-execution (t=%g to LP %llu)", msg->dest_t, (unsigned long long)msg->dest);
-	unsigned dest_th = lid_to_rid(msg->dest);
+	unsigned dest_th = (unsigned)(rs_rank() * 8) + lid_to_rid(msg->dest);
 	r->queued = (uint8_t)(dest_th + 1);
 	qcount[dest_th]++;
 	msg_queue_insert(msg);
@@ -235,7 +305,7 @@ void vw_msg_queue_insert(struct lp_msg *msg)
 
 struct lp_msg *vw_msg_queue_extract(void)
 {
-	int th = (int)rid;
+	int th = TH();
 	struct lp_msg *msg = msg_queue_extract();
 	if(!msg)
 		return NULL;
@@ -296,6 +366,46 @@ void vw_msg_allocator_free(struct lp_msg *m)
 	msg_allocator_free(m);
 }
 
+/* remote sends: the sender keeps its copy until the GVT passes it (msg_allocator_free_at_gvt + msg_allocator_on_gvt, the
+ * latter releases inside its own translation unit, so the release is mirrored here rather than observed) */
+static uint8_t at_gvt_mark[MAXMSG];
+void vw_msg_allocator_free_at_gvt(struct lp_msg *m)
+{
+	struct mrec *r = mr_find(m, 1);
+	if(want("M") && !r->alloc)
+		rs_fail("C06 remote copy handed to free_at_gvt although it is not allocated, t=%g", m->dest_t);
+	at_gvt_mark[r - MR] = (uint8_t)(TH() + 1);
+	msg_allocator_free_at_gvt(m);
+}
+
+void vw_msg_allocator_on_gvt(simtime_t g)
+{
+	int th = TH();
+	for(unsigned i = 0; i < MAXMSG; ++i)
+		if(at_gvt_mark[i] == th + 1 && MR[i].p && MR[i].p->dest_t < g) {
+			if(want("M") && fmpi_buffer_in_flight(MR[i].p, (char *)MR[i].p + sizeof(struct lp_msg)))
+				rs_fail("C06 sender's copy of a remote message released at GVT %g while its MPI send is still in flight (t=%g)", g,
+				    MR[i].p->dest_t);
+			at_gvt_mark[i] = 0;
+			MR[i].alloc = 0;
+		}
+	msg_allocator_on_gvt(g);
+}
+
+void vw_mpi_remote_msg_send(struct lp_msg *msg, nid_t dest)
+{
+	if(in_coast[TH()] && want("R"))
+		rs_fail("C05 remote event emitted during silent re-execution (t=%g to LP %llu)", msg->dest_t, (unsigned long long)msg->dest);
+	rs_count(C_REMOTE_SENT, 1);
+	mpi_remote_msg_send(msg, dest);
+}
+
+void vw_mpi_remote_anti_msg_send(struct lp_msg *msg, nid_t dest)
+{
+	rs_count(C_REMOTE_ANTI, 1);
+	mpi_remote_anti_msg_send(msg, dest);
+}
+
 /* msg_queue_fini(): whatever is still pending beyond the final GVT is discarded at shutdown */
 void vw_qfini_msg_allocator_free(struct lp_msg *m)
 {
@@ -303,7 +413,7 @@ void vw_qfini_msg_allocator_free(struct lp_msg *m)
 	if(want("M")) {
 		if(!r->alloc)
 			rs_fail("C06 msg_queue_fini released a buffer that is not allocated, t=%g", m->dest_t);
-		if(r->queued != (int)rid + 1)
+		if(r->queued != TH() + 1)
 			rs_fail("C06 msg_queue_fini released a message that was not pending in this thread's queue, t=%g", m->dest_t);
 	}
 	if(r->queued)
@@ -347,7 +457,6 @@ static void commit_check(lp_id_t lp, double t, unsigned type, unsigned size, uin
 		    (unsigned long long)lp, k, t, type, (unsigned long long)h_after, (unsigned long long)e->h_after, where);
 }
 
-extern void fossil_lp_collect(struct lp_ctx *lp);
 void vw_fossil_lp_collect(struct lp_ctx *lp)
 {
 	array_count_t before = array_count(lp->p.p_msgs);
@@ -378,8 +487,8 @@ void vw_fossil_lp_collect(struct lp_ctx *lp)
 	array_count_t removed = before - after;
 	if(removed)
 		rs_count(C_FOSSIL_RELEASE, 1);
-	lp_id_t id = (lp_id_t)(lp - lps);
-	double g = gvt_last[rid];
+	lp_id_t id = (lp_id_t)(lp - LPS);
+	double g = gvt_last[TH()];
 	for(array_count_t i = 0; i < removed; ++i) {
 		if(!sn[i].past)
 			continue;
@@ -391,10 +500,9 @@ void vw_fossil_lp_collect(struct lp_ctx *lp)
 	free(sn);
 }
 
-extern void process_lp_fini(struct lp_ctx *lp);
 void vw_process_lp_fini(struct lp_ctx *lp)
 {
-	lp_id_t id = (lp_id_t)(lp - lps);
+	lp_id_t id = (lp_id_t)(lp - LPS);
 	/* entries still held at shutdown with timestamp below the last GVT are committed; the last GVT is the largest value
 	 * reported to any thread (a thread that left the loop early was simply not told the final rounds) */
 	double g = 0;
@@ -415,14 +523,12 @@ void vw_process_lp_fini(struct lp_ctx *lp)
 	process_lp_fini(lp);
 }
 
-extern void process_lp_init(struct lp_ctx *lp);
 void vw_process_lp_init(struct lp_ctx *lp)
 {
 	process_lp_init(lp);
 	hist_mark(lp, 1);
 }
 
-extern void termination_on_msg_process(struct lp_ctx *lp, simtime_t msg_time);
 void vw_termination_on_msg_process(struct lp_ctx *lp, simtime_t t)
 {
 	/* called at the very end of a forward process_msg(): the message is in the history now */
@@ -442,7 +548,7 @@ void vw_model_allocator_checkpoint_take(struct mm_state *self, array_count_t ref
 
 array_count_t vw_model_allocator_checkpoint_restore(struct mm_state *self, array_count_t ref_i)
 {
-	int th = (int)rid;
+	int th = TH();
 	array_count_t r = model_allocator_checkpoint_restore(self, ref_i);
 	if(want("R") && r > ref_i)
 		rs_fail("C05 restore returned a checkpoint (%u) beyond the rollback target (%u)", (unsigned)r, (unsigned)ref_i);
@@ -451,12 +557,11 @@ array_count_t vw_model_allocator_checkpoint_restore(struct mm_state *self, array
 	return r;
 }
 
-extern void termination_on_lp_rollback(struct lp_ctx *lp, simtime_t msg_time);
 void vw_termination_on_lp_rollback(struct lp_ctx *lp, simtime_t t)
 {
-	int th = (int)rid;
+	int th = TH();
 	in_coast[th] = 0;
-	lp_id_t id = (lp_id_t)(lp - lps);
+	lp_id_t id = (lp_id_t)(lp - LPS);
 	if(want("G") && t < gvt_last[th])
 		rs_fail("C04 rollback below the GVT: LP %llu rolled back by a message with timestamp %g, thread %d was told GVT %g",
 		    (unsigned long long)id, t, th, gvt_last[th]);
@@ -491,13 +596,13 @@ void vw_termination_on_lp_rollback(struct lp_ctx *lp, simtime_t t)
 
 void vw_stats_take(enum stats_thread_type s, uint_fast64_t c)
 {
-	st_shadow[rid][s] += c;
+	st_shadow[TH()][s] += c;
 	stats_take(s, c);
 }
 
 void vw_stats_on_gvt(simtime_t g)
 {
-	int th = (int)rid;
+	int th = TH();
 	unsigned k = st_nrec[th];
 	if(k < MAXREC) {
 		st_rec[th][k][0] = st_shadow[th][STATS_MSG_PROCESSED];
@@ -537,6 +642,7 @@ static void *ext_stopper(void *arg)
 {
 	(void)arg;
 	rs_set_role("external-stop");
+	rs_set_rank(0);
 	for(int i = 0; i < P_ext_stop; ++i)
 		rs_point("external-wait");
 	stop_called = 1;
@@ -544,17 +650,13 @@ static void *ext_stopper(void *arg)
 	return NULL;
 }
 
-static void body(void)
+static int rank_rc[NRANKS];
+static void *rank_main(void *arg)
 {
-	if(vm_parse(P_model, &VM))
-		rs_engine_error("bad model '%s'", P_model);
-	rx_run(&REF, 4242);
-	if(REF.overflow)
-		rs_engine_error("model '%s' has too many events for the reference log", P_model);
-	fmpi_reset(1);
-	vm_env = &vm_core_env;
-	vm_core_env.stop = h_stop;
-	vm_core_env.on_fini = h_on_fini;
+	int k = (int)(long)arg;
+	rs_set_rank(k);
+	if(k)
+		rs_set_role("rank-main");
 	struct simulation_configuration conf = {0};
 	conf.lps = VM.n_lps;
 	conf.n_threads = P_threads;
@@ -569,16 +671,38 @@ static void body(void)
 	conf.committed = vm_can_end;
 	if(RootsimInit(&conf))
 		rs_engine_error("RootsimInit failed");
-	if(P_ext_stop >= 0)
+	if(P_ext_stop >= 0 && k == 0)
 		rs_thread_create(ext_stopper, NULL);
-	int rc = RootsimRun();
+	rank_rc[k] = RootsimRun();
+	return NULL;
+}
+
+static void body(void)
+{
+	if(vm_parse(P_model, &VM))
+		rs_engine_error("bad model '%s'", P_model);
+	rx_run(&REF, 4242);
+	if(REF.overflow)
+		rs_engine_error("model '%s' has too many events for the reference log", P_model);
+	if(VM.n_lps < NRANKS)
+		rs_engine_error("fewer LPs than ranks");
+	fmpi_reset(NRANKS);
+	vm_env = &vm_core_env;
+	vm_core_env.stop = h_stop;
+	vm_core_env.on_fini = h_on_fini;
+	int ids[NRANKS];
+	for(long k = 1; k < NRANKS; ++k)
+		ids[k] = rs_thread_create(rank_main, (void *)k);
+	rank_main((void *)0L);
+	for(int k = 1; k < NRANKS; ++k)
+		rs_thread_join(ids[k]);
 	run_returned = 1;
-	if(rc)
-		rs_fail("RootsimRun returned %d", rc);
-	unsigned eff_threads = global_config.n_threads;
+	for(int k = 0; k < NRANKS; ++k)
+		if(rank_rc[k])
+			rs_fail("RootsimRun returned %d on rank %d", rank_rc[k], k);
 	/* ---- T: was it legitimate to return? ---- */
 	double gstar = 0;
-	for(unsigned t = 0; t < eff_threads; ++t)
+	for(unsigned t = 0; t < MAXTH; ++t)
 		if(gvt_last[t] > gstar)
 			gstar = gvt_last[t];
 	double tt = P_term == 0 ? SIMTIME_MAX : P_term;
@@ -698,7 +822,8 @@ static const struct rs_harness H = {
 	[C_GVT_ROUNDS] = "gvt_reports", [C_COMMITTED] = "committed_events", [C_CKPT] = "checkpoints", [C_EVENTS] = "forward_events",
 	[C_BY_PRED] = "ended_by_predicate", [C_BY_TIME] = "ended_by_time", [C_BY_STOP] = "ended_by_stop",
 	[C_CANCEL_IN_QUEUE] = "cancelled_while_queued", [C_E_CHECKED] = "end_state_compared", [C_T_CHECKED] = "termination_checked",
-	[C_NEG_QUIESCENT] = "negative_quiescent", [40] = "mpi_invisible", [41] = "mpi_reordered", [42] = "mpi_collective_delayed"},
+	[C_NEG_QUIESCENT] = "negative_quiescent", [C_REMOTE_SENT] = "remote_events_sent", [C_REMOTE_ANTI] = "remote_anti_sent",
+	[C_EARLY_ANTI] = "early_remote_anti", [C_REMOTE_ANTI_RECV] = "remote_anti_extracted", [40] = "mpi_invisible", [41] = "mpi_reordered", [42] = "mpi_collective_delayed"},
 };
 
 int main(int argc, char **argv)
